@@ -117,7 +117,10 @@ theorem facts_bound (n ps i : Nat) :
 worker index. -/
 theorem facts_loop_shape :
     Hub.Facts.Partition.indexAdvance = "index += psize" ∧ Hub.Facts.Partition.loopCond = "i < parallelisms"
-    ∧ Hub.Facts.Partition.loopInit = "i := 0" ∧ Hub.Facts.Partition.joinOrder = "byWorkerIndex" := by decide
+    ∧ Hub.Facts.Partition.loopInit = "i := 0" ∧ Hub.Facts.Partition.joinOrder = "byWorkerIndex"
+    ∧ Hub.Facts.Partition.chunkStmts = ["chunk := make([]*server.Entity, to-from)", "copy(chunk, entities[from:to])", "go local(wid, chunk, &wg)"]
+    ∧ Hub.Facts.Partition.readLoopStop = ["len(entities)", "incomingEntityCount == 0 || continuationToken.GetToken() == \"\"",
+        "len(entities)", "incomingEntityCount == 0 || continuationToken.GetToken() == \"\""] := by decide
 
 -- non-vacuity: a concrete non-trivial split (14 entities, 10 workers: the D7 input)
 example : chunks (List.range 14) 10 =
